@@ -480,6 +480,13 @@ class ByteLoopInterp:
         mirror = {ast.Lt: ast.Gt, ast.Gt: ast.Lt, ast.LtE: ast.GtE, ast.GtE: ast.LtE, ast.Eq: ast.Eq, ast.NotEq: ast.NotEq}
         if type(op) not in mirror:
             self.bad(node, "comparison operator")
+        if isinstance(left, ast.BinOp) and isinstance(left.op, (ast.Add, ast.Sub)) and self._key(left.left) in env:
+            # x + e <op> y  ==>  x <op> y - e   (x a refinable length / counter, e any interval)
+            e_ = self.ev(left.right, env)
+            if isinstance(left.op, ast.Sub):
+                e_ = _neg(e_)
+            a, b = self.ev(left.left, env), _sub(b, e_)
+            left = left.left
         lk, rk = self._key(left), self._key(right)
         if lk is None or lk not in env:
             if rk is not None and rk in env:
@@ -534,6 +541,9 @@ class ByteLoopInterp:
             if isinstance(v, (bytes, bytearray)):
                 return bytes(v)
             # bytes((0x00, N)) / bytes([..]) of integer constants
+            if type(v).__name__ == "CallVal" and v.func in ("bytes", "bytearray") and len(v.args) == 1 and not v.kwargs \
+                    and isinstance(v.args[0], int) and not isinstance(v.args[0], bool) and 0 <= v.args[0] <= 1 << 16:
+                return bytes(v.args[0])          # bytes(255): that many zero bytes
             if type(v).__name__ == "CallVal" and v.func in ("bytes", "bytearray") and len(v.args) == 1 and not v.kwargs \
                     and isinstance(v.args[0], (tuple, list)) and all(isinstance(x, int) and not isinstance(x, bool)
                                                                       and 0 <= x <= 255 for x in v.args[0]):
@@ -624,6 +634,14 @@ class ByteLoopInterp:
         r = self.ref_of(e)
         if r is not None and r[0] == "run":
             return [("rep", [("b", env[f"#run:{r[1]}"], "#input")], (1, INF))]
+        if isinstance(e, ast.Subscript) and isinstance(e.slice, ast.Slice) and e.slice.lower is None and e.slice.step is None \
+                and e.slice.upper is not None:
+            cb0 = self._const_bytes(e.value, env)
+            if cb0 is not None and len(set(cb0)) <= 1:
+                n = self.ev(e.slice.upper, env)
+                lo, hi = max(0, min(len(cb0), n[0])), max(0, min(len(cb0), n[1]))
+                v0 = cb0[0] if cb0 else 0
+                return [("rep", [("b", (v0, v0), None)], (lo, hi))]
         if isinstance(e, ast.Subscript) and not isinstance(e.slice, ast.Slice):
             table = self._static_table(e.value)
             if table is not None:
@@ -1401,7 +1419,9 @@ def r1(ctx):
     # what has been *decoded*: a raise must only be reachable once the output buffer is known to be non-empty
     # (i.e. behind a test on its length), never on the strength of the input alone
     for rn, envs in it.raises.values():
-        lows = [max([env[k][0] for k in env if k.startswith("#len:")] or [0]) for env in envs]
+        # (an input that is known to be zero-free decodes to itself: there its length IS the decoded size)
+        lows = [max([env[k][0] for k in env if k.startswith("#len:")] + ([env["#dlen"][0]] if env.get("#nz") == (1, 1) else []) or [0])
+                for env in envs]
         lo = min(lows) if lows else 0
         guard = next((a.test for a in ancestors(rn) if isinstance(a, ast.If)), rn)
         ctx.ob("C03.R1", f"{f.qual}: refusal `{norm(guard)}` depends on the decoded size", lo >= 1, ctx.w(f, rn),
@@ -1456,6 +1476,8 @@ def r3(ctx):
                        "+ 2*extra-length (every header byte may double under zero-coding) - and is a bounded prefix")
     hf = repo.fn("UDPMessageDeserializer._parse_message_header")
     dmod = hf.module
+    from .common import dealias_class_locals
+    hf_node = dealias_class_locals(repo, hf)        # class constants read through a local alias of the class
     specs = repo.module_assign(dmod, "_MSG_NUM_SPECS")
     ctx.require(isinstance(specs, (ast.Tuple, ast.List)), "_MSG_NUM_SPECS is not a tuple/list literal")
     maxnum = 0
@@ -1465,17 +1487,17 @@ def r3(ctx):
         fmt = struct_fmt_of_prim(repo, spec_symbol(pair[1]) or "")
         ctx.require(fmt is not None, f"_MSG_NUM_SPECS row {i}: unknown spec {norm(pair[1])}")
         maxnum = max(maxnum, i + struct.calcsize("<" + fmt))
-    cs0 = [c for c in find_calls(hf.node, "zero_code_expand") if has_path_fact(c, "zerocoded", True, hf.node)]
+    cs0 = [c for c in find_calls(hf_node, "zero_code_expand") if has_path_fact(c, "zerocoded", True, hf_node)]
     ctx.ob("C03.R3", "header expands a zero-coded prefix under msg.zerocoded", len(cs0) == 1, hf.where, f"found {len(cs0)}")
     for c in cs0:
         arg = c.args[0] if c.args else None
         if isinstance(arg, ast.Name):
-            vals = [st.value for st in stores(hf.node, into_defs=False) if st.path == arg.id and st.value is not None]
+            vals = [st.value for st in stores(hf_node, into_defs=False) if st.path == arg.id and st.value is not None]
             arg = vals[-1] if vals else arg
         if not (isinstance(arg, ast.Subscript) and isinstance(arg.slice, ast.Slice)) or arg.slice.upper is None:
             continue            # judged by the bounded-prefix obligation below
-        hi = linform(repo, dmod, hf.node, arg.slice.upper)
-        lo = linform(repo, dmod, hf.node, arg.slice.lower) if arg.slice.lower is not None else {1: 0}
+        hi = linform(repo, dmod, hf_node, arg.slice.upper)
+        lo = linform(repo, dmod, hf_node, arg.slice.lower) if arg.slice.lower is not None else {1: 0}
         if hi is None or lo is None:
             raise AnalysisError(f"C03.R3: header window bounds not linear: {norm(arg)}")
         diff = dict(hi)
@@ -1491,10 +1513,10 @@ def r3(ctx):
     # ... and *only* those: the header stage must expand a bounded prefix of the still-encoded datagram.  Expanding
     # the whole datagram first lets the size cap (a property of the body) reject a packet whose header is fine, so
     # it can no longer be named / kept as a raw body and forwarded.
-    for c in find_calls(hf.node, "zero_code_expand"):
+    for c in find_calls(hf_node, "zero_code_expand"):
         arg = c.args[0] if c.args else None
         if isinstance(arg, ast.Name):
-            vals = [st.value for st in stores(hf.node, into_defs=False) if st.path == arg.id and st.value is not None]
+            vals = [st.value for st in stores(hf_node, into_defs=False) if st.path == arg.id and st.value is not None]
             arg = vals[-1] if len(vals) >= 1 else arg
         bounded = isinstance(arg, ast.Subscript) and isinstance(arg.slice, ast.Slice) and arg.slice.upper is not None
         ctx.ob("C03.R3", f"{hf.qual}: header peek expands a bounded prefix of the datagram", bounded, ctx.w(hf, c),
@@ -1626,7 +1648,90 @@ def r4(ctx):
                        f"the wire / into the parser is not the zero-coding the flag announces")
 
 
+def r5(ctx):
+    """bytes.find()/rfind() report "not found" as -1 and a hit at the very start as 0: a zero-coding function that
+    tests such a result with `> 0`, `<= 0` or plain truthiness treats a zero byte at offset 0 as absent (unless the
+    search starts at a constant offset >= 1)."""
+    repo = ctx.repo
+    ctx.rule("C03.R5", "position searches in the zero-coding functions distinguish 'found at offset 0' from 'not found': "
+                       "a find()/rfind() result is compared with -1 / >= 0 / < 0, never with `> 0`, `<= 0` or by truthiness")
+    fns = []
+    for cls_name, meth in (("UDPMessageSerializer", "zero_code_compress"), ("UDPMessageDeserializer", "zero_code_expand")):
+        f = codec_fn(repo, cls_name, meth)
+        fns.append(f)
+        for c in calls(f.node, into_defs=True):           # same-module helpers the codec delegates to
+            if isinstance(c.func, ast.Name):
+                fns.extend(g for g in repo.funcs.get(c.func.id, []) if g.module is f.module and g.cls is None and g.parent_fn is None)
+    n = 0
+    for f in {g.full: g for g in fns}.values():
+        finds = {}
+        for node in walk(f.node, into_defs=True):
+            tgt, val = None, None
+            if isinstance(node, ast.NamedExpr) and isinstance(node.target, ast.Name):
+                tgt, val = node.target.id, node.value
+            elif isinstance(node, ast.Assign) and len(node.targets) == 1 and isinstance(node.targets[0], ast.Name):
+                tgt, val = node.targets[0].id, node.value
+            if tgt and isinstance(val, ast.Call) and isinstance(val.func, ast.Attribute) and val.func.attr in ("find", "rfind"):
+                start = val.args[1] if len(val.args) > 1 else None
+                safe = isinstance(start, ast.Constant) and isinstance(start.value, int) and start.value >= 1
+                finds[tgt] = (val, safe)
+
+        def is_find(e):
+            if isinstance(e, ast.NamedExpr):
+                e = e.target
+            if isinstance(e, ast.Name) and e.id in finds:
+                return finds[e.id]
+            if isinstance(e, ast.Call) and isinstance(e.func, ast.Attribute) and e.func.attr in ("find", "rfind"):
+                start = e.args[1] if len(e.args) > 1 else None
+                return e, isinstance(start, ast.Constant) and isinstance(start.value, int) and start.value >= 1
+            return None
+        for node in walk(f.node, into_defs=True):
+            tests = []
+            if isinstance(node, (ast.If, ast.While, ast.IfExp)):
+                tests.append(node.test)
+            for t in tests:
+                for e in ast.walk(t):
+                    bad = None
+                    if isinstance(e, ast.Compare) and len(e.ops) == 1:
+                        l, r, op = e.left, e.comparators[0], e.ops[0]
+                        fl_, fr_ = is_find(l), is_find(r)
+                        zero = lambda x: isinstance(x, ast.Constant) and x.value == 0 and not isinstance(x.value, bool)   # noqa: E731
+                        if fl_ and zero(r) and isinstance(op, (ast.Gt, ast.LtE)) and not fl_[1]:
+                            bad = fl_[0]
+                        if fr_ and zero(l) and isinstance(op, (ast.Lt, ast.GtE)) and not fr_[1]:
+                            bad = fr_[0]
+                        if fl_ or fr_:
+                            n += 1
+                            ctx.ob("C03.R5", f"{f.qual}: `{norm(e)}` tells a hit at offset 0 from 'not found'", bad is None, ctx.w(f, e),
+                                   f"`{norm(bad) if bad is not None else ''}` is 0 for a zero byte at the very start of the buffer and -1 "
+                                   f"when there is none: this test takes both for 'no (more) zeros', so a run at offset 0 is copied "
+                                   f"through / never expanded")
+                # plain truthiness of a find result
+                t0 = t.operand if isinstance(t, ast.UnaryOp) and isinstance(t.op, ast.Not) else t
+                ff = is_find(t0)
+                if ff is not None and not ff[1]:
+                    n += 1
+                    ctx.ob("C03.R5", f"{f.qual}: `{norm(t)}` tells a hit at offset 0 from 'not found'", False, ctx.w(f, t),
+                           "truthiness of a find() result: 0 (found at the start) is falsy, -1 (not found) is truthy")
+    ctx.stats["C03.R5.find tests"] = n
+    if n == 0:
+        ctx.ob("C03.R5", "zero-coding functions: no position search whose result is tested", True, "", "nothing to check")
+
+
 def run(ctx):
+    r5(ctx)
+    lint_failed = any(o.rule == "C03.R5" and not o.ok for o in ctx.obligations)
+    try:
+        _run_interpreted(ctx)
+    except AnalysisError as e:
+        # the byte-loop interpreter cannot read the function: fail closed - unless a cheaper clause above has already
+        # decided (and failed) it, in which case that verdict stands and the unreadable rest is only noted
+        if not lint_failed:
+            raise
+        ctx.note(f"C03.R1/R2 not evaluated: {e}")
+
+
+def _run_interpreted(ctx):
     r1(ctx)
     r2(ctx)
     r3(ctx)
